@@ -4,6 +4,7 @@
 #include "common.h"
 
 void vp_install_handlers(void);
+void vp_set_status_file(const char* path);
 
 typedef void (*runfn)(void);
 static const struct {
@@ -53,6 +54,9 @@ int main(int argc, char** argv) {
       i++;
     } else if (!strcmp(a, "--mode")) {
       G.mode = v;
+      i++;
+    } else if (!strcmp(a, "--status")) {
+      vp_set_status_file(v);
       i++;
     } else if (!strcmp(a, "--valgrind")) {
       G.valgrind = 1;
